@@ -181,6 +181,29 @@ func TestC03(t *testing.T) {
 		return
 	}
 
+	// a property section that needs the four-byte form of its length
+	if *vf.Shard == 0 {
+		for _, target := range []int{2097151, 2097152, 2097160} {
+			pm := model.New(model.PUBLISH)
+			pm.TopicName = "t"
+			total := 0
+			for total+60006+1000 < target {
+				pm.UserProps = append(pm.UserProps, model.KV{K: "k", V: string(bytes.Repeat([]byte{'v'}, 60000))})
+				total += 60006
+			}
+			pm.UserProps = append(pm.UserProps, model.KV{K: "k", V: string(bytes.Repeat([]byte{'w'}, target-total-6))})
+			pm.Normalize()
+			frame, sig, msg, _ := checkC03(pm, styleJSON{Form: 2})
+			r.Case(vf.FPs("proplen", fmt.Sprint(target)), true, "PUBLISH/large-property-section", func() interface{} {
+				return map[string]interface{}{"property_length": target, "frame_bytes": len(frame)}
+			})
+			if msg != "" {
+				r.Fail("accept", caseC03{ModelGob: packModel(pm), Model: pm.String(), Style: styleJSON{Form: 2}}, sig, "%s", msg)
+				break
+			}
+		}
+	}
+
 	perType := vf.N(1600, 400000)
 	for typ := uint8(1); typ <= 15; typ++ {
 		typ := typ
